@@ -13,7 +13,9 @@
             LabelAlignment.align, Paragraph.render / LabeledParagraph.render incl. textwrap.wrap with default options
             (greedy fill, long words broken - after a hyphen when there is one -, blanks dropped at line ends, style
             tags counted as text), and the resolution of the command a help request is about.
-            Repaired = TRUE models the tree with the proposed fixes C13-*.diff applied, FALSE the pinned tree.
+            Repaired = TRUE models the tree with the proposed fixes C13-*.diff applied (a parameter without description is
+            an empty text; a help request parses leniently whatever was cached; hidden default sub-commands stay out of
+            the synopsis), FALSE the pinned tree.
 
    A configuration (JSON-shaped, built by MC_HelpPage or shipped by the driver):
      cfg  = [app, display, ver, help, gopts, cmds]     display: words of the display name; ver: "" = none;
@@ -106,7 +108,8 @@ LongestLabel(cfg, p) ==
 Pre(cfg, p, T) == T >= LongestLabel(cfg, p) + Margin
 
 \* ------------------------------------------------------------------ A-layer: text
-\* a word of running text: r the characters as written (style tags included), t whether it contains style tags
+\* a chunk of running text: r the characters as written (style tags included), t whether it contains style tags,
+\* ws whether it is a run of blanks
 Wd(s) == [r |-> s, t |-> FALSE, ws |-> FALSE]
 Tg(s) == [r |-> s, t |-> TRUE, ws |-> FALSE]
 Plain(ws) == [j \in 1..Len(ws) |-> Wd(ws[j])]
